@@ -148,4 +148,61 @@ pub mod sync {
             released();
         }
     }
+    /// Drop-in for the subset of `dashmap::DashMap` that `MemoryCache` uses: the point
+    /// operations (`get`, `insert`, `remove`, `remove_if`) are scheduling points taken
+    /// *before* the shard lock, so that the window between two map operations of one task
+    /// is visible to the scheduler wherever the code puts it. Everything else (`iter`,
+    /// `retain`, `len`, `clear`, …) reaches the inner map through `Deref`.
+    #[derive(Debug, Clone)]
+    pub struct DashMap<K: Eq + std::hash::Hash, V>(dashmap::DashMap<K, V>);
+
+    impl<K: Eq + std::hash::Hash, V> DashMap<K, V> {
+        /// New map with room for `capacity` entries.
+        pub fn with_capacity(capacity: usize) -> Self {
+            Self(dashmap::DashMap::with_capacity(capacity))
+        }
+
+        /// `dashmap::DashMap::get` behind a scheduling point.
+        pub fn get<Q>(&self, key: &Q) -> Option<dashmap::mapref::one::Ref<'_, K, V>>
+        where
+            K: std::borrow::Borrow<Q>,
+            Q: std::hash::Hash + Eq + ?Sized,
+        {
+            sched_point("dashmap.get");
+            self.0.get(key)
+        }
+
+        /// `dashmap::DashMap::insert` behind a scheduling point.
+        pub fn insert(&self, key: K, value: V) -> Option<V> {
+            sched_point("dashmap.insert");
+            self.0.insert(key, value)
+        }
+
+        /// `dashmap::DashMap::remove` behind a scheduling point.
+        pub fn remove<Q>(&self, key: &Q) -> Option<(K, V)>
+        where
+            K: std::borrow::Borrow<Q>,
+            Q: std::hash::Hash + Eq + ?Sized,
+        {
+            sched_point("dashmap.remove");
+            self.0.remove(key)
+        }
+
+        /// `dashmap::DashMap::remove_if` behind a scheduling point.
+        pub fn remove_if<Q>(&self, key: &Q, f: impl FnOnce(&K, &V) -> bool) -> Option<(K, V)>
+        where
+            K: std::borrow::Borrow<Q>,
+            Q: std::hash::Hash + Eq + ?Sized,
+        {
+            sched_point("dashmap.remove_if");
+            self.0.remove_if(key, f)
+        }
+    }
+
+    impl<K: Eq + std::hash::Hash, V> Deref for DashMap<K, V> {
+        type Target = dashmap::DashMap<K, V>;
+        fn deref(&self) -> &Self::Target {
+            &self.0
+        }
+    }
 }
